@@ -40,6 +40,15 @@ fn small_contract(rng: &mut Rng) -> String {
     if solang_parser::parse(&s, 0).is_err() {
         s = "pragma solidity ^0.8.0;\ncontract C { function f(uint a) public { a++; } }\n".to_string();
     }
+    // one file in three is re-laid-out with line breaks and comments between its tokens, so that flagged constructs span
+    // several lines and nest across lines
+    if rng.chance(1, 3) {
+        if let Some((s2, _, _)) = super::files::relayout(&s, rng, false) {
+            if solang_parser::parse(&s2, 0).is_ok() {
+                s = s2;
+            }
+        }
+    }
     s
 }
 
@@ -189,6 +198,8 @@ pub fn dir_requests(ctx: &mut Ctx, rng: &mut Rng) {
         }
     }
     ctx.count("non_ascii_chars_lowercasing_into_dot_t_sol", bad);
+    let mut total_index_dependent = 0u64;
+    let mut total_repeat_calls = 0u64;
     for k in 0..n {
         let dir = root.join(format!("t{}", k));
         std::fs::create_dir_all(&dir).unwrap();
@@ -263,6 +274,8 @@ pub fn dir_requests(ctx: &mut Ctx, rng: &mut Rng) {
             gt.push(format!("{}:{}", key, per.join(",")));
         }
         ctx.count("file_number_dependent_results", index_dependent);
+        total_index_dependent += index_dependent;
+        total_repeat_calls += 2 * (built.sources.len() * all.len()) as u64;
         let sel2: Vec<String> = sel.iter().map(|s| s.to_string()).collect();
         let t2 = target.clone();
         let imp = match cat {
@@ -283,6 +296,8 @@ pub fn dir_requests(ctx: &mut Ctx, rng: &mut Rng) {
         let _ = std::fs::remove_dir_all(&dir);
         let _ = std::fs::remove_dir_all(&ext);
     }
+    // the same file analysed twice (with two different file numbers) must give the same lines: repetition and position
+    ctx.line(&["THREADS", &total_repeat_calls.to_string(), &total_index_dependent.to_string()]);
     let _ = std::fs::remove_dir_all(&root);
 }
 
@@ -292,7 +307,12 @@ pub fn thread_requests(ctx: &mut Ctx, rng: &mut Rng) {
     let nfiles = if ctx.thorough { 400 } else { 60 };
     let mut files: Vec<String> = vec![];
     for _ in 0..nfiles {
-        let s = gen::random_file(rng.next(), Cfg::default());
+        let mut s = gen::random_file(rng.next(), Cfg::default());
+        if rng.chance(1, 3) {
+            if let Some((s2, _, _)) = super::files::relayout(&s, rng, false) {
+                s = s2;
+            }
+        }
         if solang_parser::parse(&s, 0).is_ok() {
             files.push(s);
         }
